@@ -61,7 +61,7 @@ def gen_cases(tier: str, seed: int) -> list[dict]:
             cases.append({"kind": "exhaustive", "spec_i": i, "cut": cut, "depth": depth, "seed": seed})
     for i in range(80 if tier == "quick" else 1000):
         cases.append({"kind": "race", "spec_i": i, "seed": seed})
-    for sp in range(4):
+    for sp in range(6):
         for nth in ((0, 1) if tier == "quick" else (0, 1, 2, 3)):
             cases.append({"kind": "relapse", "spec": sp, "nth": nth, "seed": seed})
     return cases
@@ -420,7 +420,9 @@ def _relapse(case: dict) -> dict:
     from .. import interleave as il
     from ..world import World
 
-    spec = [specs.chain(2), specs.multitask(), specs.polling(1), specs.diamond()][case["spec"]]
+    raising = {"name": "raising", "confluent": True, "stages": [specs.st("a", [], [{"kind": "raise"}], ctx={"continuePipelineOnFailure": True}), specs.st("b", ["a"])]}
+    timeouty = {"name": "raising2", "confluent": True, "stages": [specs.st("a"), specs.st("b", ["a"], [dict(specs.OK), {"kind": "raise"}]), specs.st("c", ["b"])]}
+    spec = [specs.chain(2), specs.multitask(), specs.polling(1), specs.diamond(), raising, timeouty][case["spec"]]
     w = World()
     cut = None
     try:
